@@ -673,25 +673,27 @@ func c01GenLayout3(rng *Rng, shape int) []c01Bind3 {
 	var binds []c01Bind3
 	type blk struct {
 		grouped, allow, exec bool
+		shared               bool // the block's group is the one group "gs" that other blocks may use too; 1-2 bindings
 	}
 	var blocks []blk
 	switch shape {
 	case 0: // group, then a binding at which combining stops: different allowFailure
-		blocks = []blk{{true, false, true}, {false, true, true}}
+		blocks = []blk{{true, false, true, false}, {false, true, true, false}}
 	case 1: // the other way round
-		blocks = []blk{{true, true, true}, {false, false, true}}
+		blocks = []blk{{true, true, true, false}, {false, false, true, false}}
 	case 2: // group, then a binding that is combined with it
-		blocks = []blk{{true, false, true}, {false, false, true}}
+		blocks = []blk{{true, false, true, false}, {false, false, true, false}}
 	case 3: // group, then a binding whose Synchronization is not executed, then another one
-		blocks = []blk{{true, false, true}, {false, false, false}, {false, false, true}}
+		blocks = []blk{{true, false, true, false}, {false, false, false, false}, {false, false, true, false}}
 	case 4: // single, group, single with different allowFailure
-		blocks = []blk{{false, false, true}, {true, false, true}, {false, true, true}}
+		blocks = []blk{{false, false, true, false}, {true, false, true, false}, {false, true, true, false}}
 	case 5: // two groups with different allowFailure
-		blocks = []blk{{true, false, true}, {true, true, true}}
+		blocks = []blk{{true, false, true, false}, {true, true, true, false}}
 	default:
 		n := rng.Range(2, 3)
 		for i := 0; i < n; i++ {
-			blocks = append(blocks, blk{rng.Chance(55), rng.Chance(35), !rng.Chance(15)})
+			grouped := rng.Chance(55)
+			blocks = append(blocks, blk{grouped, rng.Chance(35), !rng.Chance(15), grouped && rng.Chance(35)})
 		}
 	}
 	for i, bl := range blocks {
@@ -700,6 +702,10 @@ func c01GenLayout3(rng *Rng, shape int) []c01Bind3 {
 		if bl.grouped {
 			size = 2
 			group = fmt.Sprintf("g%d", i)
+		}
+		if bl.shared {
+			size = rng.Range(1, 2)
+			group = "gs"
 		}
 		for j := 0; j < size; j++ {
 			b := c01Bind3{name: fmt.Sprintf("b%d%d", i, j), group: group, allowFailure: bl.allow, execOnSync: bl.exec}
@@ -720,7 +726,8 @@ func c01GenLayout3(rng *Rng, shape int) []c01Bind3 {
 //	8  legacy v0 hook, one binding        9  legacy v0 hook, two bindings (one allowFailure)
 //	10 namespace.labelSelector, no namespace at start, single binding with its own queue
 //	11 the same with a group + a single binding, own queues, first run fails
-const c01FixedShapes3 = 12
+//	12 two bindings of one group, the first with executeHookOnSynchronization: false; two failing runs
+const c01FixedShapes3 = 13
 
 func runC01Operator3(r *Run) {
 	n := r.N(c01FixedShapes3+8, c01FixedShapes3+120)
@@ -755,6 +762,11 @@ func runC01Operator3(r *Run) {
 			for i := range binds {
 				binds[i].queue = "q" + binds[i].name[1:]
 			}
+		case 12:
+			// a binding whose Synchronization is not executed (unlocked at once) shares its group with a
+			// binding whose Synchronization run fails twice: Events of the first one queue up behind it
+			opt.fail = 2
+			binds = []c01Bind3{{name: "b00", group: "gs", execOnSync: false}, {name: "b10", group: "gs", execOnSync: true}}
 		default:
 			lay := shape
 			if shape >= c01FixedShapes3 {
